@@ -324,7 +324,10 @@ def masks_equal(this, other, this_grid=None, other_grid=None):
         return False
     # mask shape is grid specific (reversed axes, decreasing axis)
     if this_grid is None or other_grid is None:
-        return True
+        # without both grids the masks can only share one layout
+        if not np.all(np.shape(this) == np.shape(other)):
+            return False
+        return bool(np.all(np.asarray(this) == np.asarray(other)))
     this = this_grid.to_canonical(this)
     other = other_grid.to_canonical(other)
     if not np.all(np.shape(this) == np.shape(other)):
